@@ -38,12 +38,19 @@ def get_bus(spec):
     if spec == "high":
         return high_rom_bus
     decls = spec["decls"]
-    if spec.get("via", "source") == "api":
+    if spec.get("via", "source") in ("api", "api_interleaved"):
         from a816.cpu.mapping import Bus
         bus = Bus("verif")
         for d in decls:
             bus.map(str(d["id"]), (d["b0"], d["b1"]), (d["lo"], d["hi"]), d["mask"], writeable=bool(d["ram"]),
                     mirror_bank_range=None if d.get("m0", -1) == -1 else (d["m0"], d["m1"]))
+            if spec["via"] == "api_interleaved":
+                # use the bus between declarations: a later declaration must still take effect
+                for bank in range(256):
+                    try:
+                        _ = bus.get_address(bank << 16 | d["lo"]).physical
+                    except Exception:
+                        pass
         return bus
     from a816.program import Program
     from harness.stub import StubWriter
@@ -112,11 +119,15 @@ def bus_advance_points(arg: dict) -> list[dict]:
     bus = get_bus(arg["bus"])
     out = []
     for a, n in arg["points"]:
+        rcls, rphys = "none", -1
         try:
-            r = (bus.get_address(a) + n).logical_value
+            obj = bus.get_address(a) + n
+            r = obj.logical_value
+            ph = obj.physical
+            rcls, rphys = ("ram", -1) if ph is None else ("rom", ph)
         except Exception:
             r = -1
-        out.append({"t": "adv", "a": a, "n": n, "res": r})
+        out.append({"t": "adv", "a": a, "n": n, "res": r, "rcls": rcls, "rphys": rphys})
     return out
 
 
@@ -127,8 +138,10 @@ def bus_advance_chain(arg: dict) -> list[dict]:
     for a, m, n in arg["points"]:
         try:
             mid = (bus.get_address(a) + m)
-            r = (mid + n).logical_value
-            out.append({"t": "adv", "a": a, "n": m + n, "res": r, "via": [m, n]})
+            obj = mid + n
+            ph = obj.physical
+            out.append({"t": "adv", "a": a, "n": m + n, "res": obj.logical_value, "via": [m, n],
+                        "rcls": "ram" if ph is None else "rom", "rphys": -1 if ph is None else ph})
         except Exception:
             pass
     return out
@@ -240,14 +253,15 @@ def assemble(arg: dict) -> dict:
     from a816.program import Program
     from harness.stub import StubWriter
     write_files(arg.get("files"))
-    p = Program()
-    if arg.get("rom") == "high":
-        p.resolver.rom_type = RomType.high_rom
-    for k, v in (arg.get("defines") or {}).items():
-        p.resolver.current_scope.add_symbol(k, v)
     w = StubWriter()
     out = {"ok": False, "err": None, "exc": None, "calls": [], "labels": []}
+    p = None
     try:
+        p = Program()       # constructing a Program is part of the code under observation
+        if arg.get("rom") == "high":
+            p.resolver.rom_type = RomType.high_rom
+        for k, v in (arg.get("defines") or {}).items():
+            p.resolver.current_scope.add_symbol(k, v)
         err = p.assemble_string_with_emitter(arg["src"], arg.get("filename", "memory.s"), w)
         if err is None:
             out["ok"] = True
